@@ -1,4 +1,15 @@
-// C10 harness: instantiations for the enum with 3 enumerators (8/16/32/64-bit words)
+// C10 harness: the executable for the enum with 3 enumerators, stored in 8/16/32/64-bit
+// words (driver and main: c10_bitfield.hpp; compiled a second time, with C10_OBSERVED, by
+// c10_bitfield_x3.cpp for the record kinds outside the statement)
 #include "c10_bitfield.hpp"
 
-int c10_run_n3(int const w, c10_args const &a) { return run_enum<e3>(w, a); }
+namespace
+{
+enum class e3
+{
+  v0, v1, v2,
+  fcppt_maximum = v2
+};
+}
+
+C10_MAIN(e3)
